@@ -57,7 +57,11 @@ func nameFromKind(kind an.BasicKind) string {
 
 // typeID returns an identifier for `ty`
 // usable in function names
-func typeID(ty an.Type) string {
+func typeID(ty an.Type) string { return typeIDRec(ty, map[*an.Named]bool{}) }
+
+// seen holds the named types already crossed: the identifier is built from the structure
+// of the type, which is not possible for a container referring to itself
+func typeIDRec(ty an.Type, seen map[*an.Named]bool) string {
 	switch ty := ty.(type) {
 	case *an.Pointer:
 		panic("pointers not handled by the SQL generator")
@@ -70,11 +74,15 @@ func typeID(ty an.Type) string {
 		if ty.Len >= 0 {
 			as += fmt.Sprintf("%d_", ty.Len)
 		}
-		return as + typeID(ty.Elem)
+		return as + typeIDRec(ty.Elem, seen)
 	case *an.Map:
-		return "map_" + typeID(ty.Elem) // JSON map keys are always strings
+		return "map_" + typeIDRec(ty.Elem, seen) // JSON map keys are always strings
 	case *an.Named: // shortcut to underlying
-		return typeID(ty.Underlying)
+		if seen[ty] {
+			panic(fmt.Sprintf("recursive type %s is not supported by the SQL generator", ty.Type()))
+		}
+		seen[ty] = true
+		return typeIDRec(ty.Underlying, seen)
 	case *an.Struct, *an.Enum, *an.Union: // these types are always named
 		return idFromNamed(ty.Type().(*types.Named))
 	default:
